@@ -25,7 +25,25 @@ FINDING_KEYS = {
     "dynreq": "dyn-setup-requirement-kinds",
     "inv_during_sub": "caller-invariant-checked-during-sub-behaviour",
     "nested_return": "nested-try-return-does-not-end-behavior",
+    "rvltl": "rvltl-until-offset",
+    "dynltl_ignored": "dynamic-temporal-require-in-compose",
 }
+
+
+def exception_finding(prog, impl):
+    """Call-site matcher for internal errors escaping from Simulator.simulate."""
+    if impl.get("kind") != "exception":
+        return None
+    has_dyn = any(
+        dyncommon_has(s["compose"], ("requireltl",)) for s in prog["scenarios"] if s["compose"]
+    )
+    if has_dyn and impl.get("exc") == "AttributeError" and "_addDynamicRequirement" in impl.get("where", ""):
+        return "dynamic-temporal-require-in-compose"
+    return None
+
+
+def dyncommon_has(stmts, ops):
+    return _has(stmts, ops)
 
 
 def _tries(stmts, depth=0, enclosing=()):
@@ -173,7 +191,7 @@ def run_dyn(tape, feat, bug_models, raise_guards_choice=False, n_env_max=6):
             dynrun._COMPILED.clear()
             scenario = dynrun.compile_prog(src, top=None if prog["flat"] else "Main", cache=False)
         if verdict == "diff":
-            fkey = FINDING_KEYS.get(finding) if finding else None
+            fkey = FINDING_KEYS.get(finding) if finding else exception_finding(prog, impl)
             for clause, detail in info:
                 d = dict(detail)
                 d["ref_outcome"] = strip(ref) if ref else None
